@@ -176,9 +176,11 @@ def build(case: dict, d: Path) -> dict:
                 (root / "src" / f"u{k}.py").write_text("x = 1\n")
                 (root / "src" / f"u{k}.py.license").mkdir()
             info["many"].append(f"src/u{k}.py")
-    elif o in ("gitmodules_empty_path", "gitmodules_not_utf8", "ignored_name_not_utf8", "covered_name_not_utf8"):
+    elif o in ("gitmodules_empty_path", "gitmodules_bare_path_key", "gitmodules_not_utf8", "ignored_name_not_utf8", "covered_name_not_utf8"):
         import subprocess
-        if o == "gitmodules_empty_path":
+        if o == "gitmodules_bare_path_key":       # a key without '=' and value: legal git-config syntax (a boolean), printed without a value
+            (root / ".gitmodules").write_text('[submodule "x"]\n\tpath\n\turl = https://example.com/x.git\n')
+        elif o == "gitmodules_empty_path":
             (root / ".gitmodules").write_text('[submodule "x"]\n\tpath = \n\turl = https://example.com/x.git\n')
         elif o == "gitmodules_not_utf8":
             (root / ".gitmodules").write_bytes(b'[submodule "x"]\n\tpath = caf\xe9\n\turl = https://example.com/x.git\n')
@@ -342,7 +344,7 @@ def run(ctx: core.Ctx) -> int:
               "two_files_fail_annotate": "valid", "three_files_fail_annotate": "valid",
               "covered_gone_after_listing": "valid", "dot_license_is_fifo": "valid", "toml_expression_parens": "invalid", "covered_expression_parens": "valid", "toml_glob_run": "valid",
               "template_not_utf8": "grey",
-              "gitmodules_empty_path": "valid", "gitmodules_not_utf8": "valid", "ignored_name_not_utf8": "valid", "covered_name_not_utf8": "valid",
+              "gitmodules_empty_path": "valid", "gitmodules_bare_path_key": "valid", "gitmodules_not_utf8": "valid", "ignored_name_not_utf8": "valid", "covered_name_not_utf8": "valid",
               "template_raises": "grey", "template_undefined": "grey", "template_garbles_expression": "grey", "dot_license_is_directory": "grey"}
     for o, cls in others.items():
         cmds = list(all_cmds) + (["convert-dep5"] if o.startswith("dep5") else [])
